@@ -253,7 +253,19 @@ func c03bases() []c03base {
 		"Plain": jm{"type": "object", "required": jl{"id"}, "properties": jm{"id": jm{"type": "integer"}, "label": jm{"type": "string"}}},
 	}
 
-	return []c03base{{"full", full}, {"bodyform", bodyform}, {"pathparams", pathparams}, {"inherit", inherit}, {"minimal", minimal}, {"nopaths", nopaths}, {"norefs", norefs}}
+	// the parent of an allOf heir is reached through a definition that is only an alias ($ref) of the
+	// real one: two hops
+	aliased := c03head()
+	aliased["paths"] = jm{"/nodes": jm{"get": jm{"operationId": "listNodes",
+		"responses": jm{"200": jm{"description": "ok", "schema": jm{"type": "array", "items": jm{"$ref": "#/definitions/Derived"}}}}}}}
+	aliased["definitions"] = jm{
+		"Base":      jm{"type": "object", "required": jl{"id"}, "properties": jm{"id": jm{"type": "integer"}, "label": jm{"type": "string"}}},
+		"BaseAlias": jm{"$ref": "#/definitions/Base"},
+		"Derived": jm{"allOf": jl{jm{"$ref": "#/definitions/BaseAlias"},
+			jm{"type": "object", "properties": jm{"extra": jm{"type": "string"}}}}},
+	}
+
+	return []c03base{{"full", full}, {"bodyform", bodyform}, {"pathparams", pathparams}, {"inherit", inherit}, {"minimal", minimal}, {"nopaths", nopaths}, {"norefs", norefs}, {"aliased", aliased}}
 }
 
 // ---- sites -----------------------------------------------------------------------------------------
@@ -485,7 +497,7 @@ func c03inheritedProperty(d jm, ref string) string {
 		if ps := jkeys(jo(s["properties"])); len(ps) > 0 {
 			return ps[0]
 		}
-		next := ""
+		next := js(s["$ref"]) // a definition that is only an alias of another one
 		for _, m := range ja(s["allOf"]) {
 			mm := jo(m)
 			if ps := jkeys(jo(mm["properties"])); len(ps) > 0 {
